@@ -6796,3 +6796,12 @@ def c20_lazy_value_hand_over(env):
 
 
 REGISTRY.setdefault("C20", []).append(c20_lazy_value_hand_over)
+
+
+# session 4, round 10: obligations that also speak for another property
+# C16: a send woken with credit completes at its next poll -- otherwise the credit it has just taken is lost when the
+#      future is dropped there (same obligation as C08's lost wake-up: the waiter's MIR against Notify's contract)
+REGISTRY.setdefault("C16", []).append(_under(c08_lost_wakeup, "C16", "c08_", "c16_"))
+# C18: a transactional post cut into several frames keeps its transactional state on every frame (the resource side
+#      sorts incoming transfer FRAMES by that state)
+REGISTRY.setdefault("C18", []).append(_under(c06_transfer_split, "C18", "c06_transfer_split", "c18_a_split_post_keeps_its_transaction_on_every_frame"))
